@@ -31,7 +31,6 @@ type c33Cover struct {
 func (e *c33) ruleG7() {
 	c := e.c
 	info := e.pk.TypesInfo
-	c.Rule("C33-G7", "what a node keeps across rows is guarded by a cacheability flag that covers every argument it depends on: the stored result by every argument evaluated in Eval or by the compile helper, the kept matcher by the pattern and match_type arguments; one predicate function in all siblings", e.cfg.FloorG7)
 	preds := map[*types.Func]int{}
 	type obligation struct {
 		key  string
